@@ -162,7 +162,7 @@ func main() {
 
 	// ---- deadline value sweep ----
 	if part("deadline") {
-		for _, t := range []int{-1, 0, 40, 3600000} {
+		for _, t := range []int{-1, 0, 40, 3600000, -2000, -3600000} {
 			for _, d := range []int{0, 40, 7200000} {
 				for _, where := range []string{"operation", "transport", "both"} {
 					if d == 0 && where != "operation" {
